@@ -1,6 +1,7 @@
 /- Line-protocol driver for correspondence K3 (iterators). -/
 import GoCo.Driver.Sexp
 import GoCo.Iters.Model
+import GoCo.Compile.RangeLower
 set_option autoImplicit false
 
 namespace GoCo.Iters
@@ -19,6 +20,15 @@ def itersRequest : Sexp → Option String
       let i : Int := (n : Int) - 100
       let sh (l : List Int) := " ".intercalate (l.map toString)
       some s!"{sh (drain intIter (i.toNat + 1) (newIntIter i))} ### {sh (rangeInt i)}"
+  | .list [.atom "k10", .atom which, .atom tok, .atom key, .atom val] => do
+      -- the shape of the lowered loop body for one form of the range clause; names: k = 1, v = 2
+      let tok ← (match tok with | "define" => some RL.Tok.define | "assign" => some RL.Tok.assign | _ => none)
+      let nm (a : String) (n : Nat) : Option Nat := if a = "name" then some n else none
+      let r : RL.RangeStmt := ⟨tok, nm key 1, nm val 2, .nil⟩
+      let l ← (match which with | "gen" => some (RL.lowerGen r) | "consumer" => some (RL.lowerConsumer r) | _ => none)
+      let showSet (x : RL.Tok × Nat × Bool) : String :=
+        (if x.1 = .define then ":=" else "=") ++ " " ++ (if x.2.1 = 1 then "k" else "v") ++ " " ++ (if x.2.2 then "Key" else "Val")
+      some s!"sets=[{"; ".intercalate (l.sets.map showSet)}] nested={l.nested}"
   | _ => none
 
 end GoCo.Iters
